@@ -3,11 +3,13 @@ from __future__ import annotations
 
 import ast
 
+from ..pattern import pmatch, pfind, pall
+
 from ..absval import Lin, Undecided, linform, eval_expr
 from ..cfg import CFG, ENTRY
-from ..core import (AnalysisError, call_name, dotted, is_const, local_defs, norm, origin, parent_map,
+from ..core import (AnalysisError, alpha, call_name, dotted, is_const, local_defs, norm, origin, parent_map,
                     walk_local, kwarg, const)
-from ..facts import guards_of, returns_of, enclosing_loops, assigned_subscripts, unpack_of
+from ..facts import guards_of, returns_of, enclosing_loops, assigned_subscripts, unpack_of, conjunct_nodes
 
 ST = "synkit/CRN/Props/stoich.py"
 UT = "synkit/CRN/Props/utils.py"
@@ -43,78 +45,122 @@ def run(rep):
 def matrices(rep):
     bs = rep.f(ST, "build_S")
     defs = local_defs(bs.node)
-    s = [d for d in defs.get("S", []) if d.kind == "assign"]
+    rets = returns_of(bs.node)
+    if not rets or not isinstance(rets[-1].value, ast.Tuple) or len(rets[-1].value.elts) != 3 or not isinstance(rets[-1].value.elts[2], ast.Name):
+        raise AnalysisError("build_S no longer returns (species, reactions, S)")
+    SN = rets[-1].value.elts[2].id
+    s = [d for d in defs.get(SN, []) if d.kind == "assign"]
     rep.need("R15", len(s), 1, "S = ... in build_S")
     if not any(isinstance(n, ast.BinOp) for n in ast.walk(s[0].value)) or "zeros" in norm(s[0].value):
         # direct fill of S: every arc must be ACCUMULATED with the sign of its role
         fills = [n for n in walk_local(bs.node) if isinstance(n, (ast.Assign, ast.AugAssign)) and
-                 any(isinstance(t, ast.Subscript) and norm(t.value) == "S" for t in (n.targets if isinstance(n, ast.Assign) else [n.target]))]
+                 any(isinstance(t, ast.Subscript) and norm(t.value) == SN for t in (n.targets if isinstance(n, ast.Assign) else [n.target]))]
         if not fills:
-            rep.ob("O17.1", "R15", bs, None, s[0].stmt, "S is neither S_plus - S_minus nor filled entry by entry")
+            rep.ob("O17.1", "R15", bs, None, alpha(s[0].stmt, bs.node), "S is neither S_plus - S_minus nor filled entry by entry")
         for n in fills:
-            rep.ob("O17.1", "R15", bs, isinstance(n, ast.AugAssign) and isinstance(n.op, (ast.Add, ast.Sub)), n,
+            rep.ob("O17.1", "R15", bs, isinstance(n, ast.AugAssign) and isinstance(n.op, (ast.Add, ast.Sub)), alpha(n, bs.node),
                    "entries of S are accumulated (+=): a species on both sides of one reaction, or parallel arcs, must add up to produced minus consumed "
                    "(a plain assignment keeps only the last arc)", node=n)
         return
+    mp = rep.f(ST, "build_S_minus_plus")
+    pm = parent_map(mp.node)
+    mdefs = local_defs(mp.node)
+    # roles of the two matrices inside build_S_minus_plus: by the role constant that guards their accumulation
+    fills = {}
+    for n in walk_local(mp.node):
+        if isinstance(n, (ast.AugAssign, ast.Assign)) and isinstance((n.target if isinstance(n, ast.AugAssign) else n.targets[0]), ast.Subscript):
+            tg = n.target if isinstance(n, ast.AugAssign) else n.targets[0]
+            gs = guards_of(pm, n, mp.node)
+            role = None
+            for t, sense in gs:
+                if isinstance(t, ast.Compare) and isinstance(t.ops[0], ast.Eq) and sense and isinstance(t.comparators[0], ast.Constant) and t.comparators[0].value in ("reactant", "product"):
+                    lsrc = origin(mdefs, t.left)
+                    if "role" in norm(lsrc) or "role" in norm(t.left):
+                        role = t.comparators[0].value
+                        break
+            if role:
+                fills.setdefault(role, []).append((norm(tg.value), n))
+    mrets = returns_of(mp.node)
+    ret_names = [norm(e) for e in mrets[0].value.elts] if len(mrets) == 1 and isinstance(mrets[0].value, ast.Tuple) else []
+    slot_role = {}
+    for role, lst in fills.items():
+        for nm, n in lst:
+            if nm in ret_names:
+                slot_role[ret_names.index(nm)] = role
+    rep.ob("O17.1", "R15", mp, len(ret_names) == 4 and slot_role.get(2) == "reactant" and slot_role.get(3) == "product", "return (species, reactions, S_minus, S_plus)",
+           "build_S_minus_plus returns (.., consumed matrix, produced matrix)", {"slot_roles": {str(k): v for k, v in slot_role.items()}})
 
     def atom(n):
         if isinstance(n, ast.Name):
             up = unpack_of(defs, n.id)
             if up and isinstance(up[0], ast.Call) and call_name(up[0]) == "build_S_minus_plus":
-                return {2: "S_minus", 3: "S_plus"}.get(up[1][0], f"ret[{up[1][0]}]")
+                return {"reactant": "S_minus", "product": "S_plus"}.get(slot_role.get(up[1][0]), f"ret[{up[1][0]}]")
         return None
     try:
         lf = linform(s[0].value, atom)
-        rep.ob("O17.1", "R15", bs, lf == Lin({"S_plus": 1, "S_minus": -1}), s[0].stmt, "S == S_plus - S_minus (produced minus consumed)", {"linear_form": lf.pretty()})
+        rep.ob("O17.1", "R15", bs, lf == Lin({"S_plus": 1, "S_minus": -1}), alpha(s[0].stmt, bs.node), "S == S_plus - S_minus (produced minus consumed)", {"linear_form": lf.pretty()})
     except Undecided as exc:
-        rep.ob("O17.1", "R15", bs, None, s[0].stmt, str(exc))
-    mp = rep.f(ST, "build_S_minus_plus")
-    pm = parent_map(mp.node)
-    rets = returns_of(mp.node)
-    ok = len(rets) == 1 and isinstance(rets[0].value, ast.Tuple) and [norm(e) for e in rets[0].value.elts][2:] == ["S_minus", "S_plus"]
-    rep.ob("O17.1", "R15", mp, ok, rets[0] if rets else "return", "build_S_minus_plus returns (.., S_minus, S_plus) in the order build_S unpacks")
-    mdefs = local_defs(mp.node)
-    fills = {}
-    for n in walk_local(mp.node):
-        if isinstance(n, ast.AugAssign) and isinstance(n.target, ast.Subscript) and norm(n.target.value) in ("S_minus", "S_plus"):
-            gs = guards_of(pm, n, mp.node)
-            role = None
-            for t, sense in gs:
-                if isinstance(t, ast.Compare) and isinstance(t.ops[0], ast.Eq) and sense and "role" in norm(t.left) and isinstance(t.comparators[0], ast.Constant):
-                    role = t.comparators[0].value
-                    break
-            fills[norm(n.target.value)] = (role, n)
-    want = {"S_minus": "reactant", "S_plus": "product"}
-    for m, r in want.items():
-        got = fills.get(m, (None, None))
-        rep.ob("O17.1", "R13", mp, got[0] == r, got[1] if got[1] is not None else m, f"{m} is filled from arcs with role '{r}'", {"role": got[0]}, node=got[1])
-        if got[1] is not None:
-            n = got[1]
-            rep.ob("O17.1", "R15", mp, isinstance(n.op, ast.Add) and norm(n.value) == "coeff", n, "coefficients are accumulated (parallel arcs add up)", node=n)
-            idx = n.target.slice
-            ok = isinstance(idx, ast.Tuple) and [norm(e) for e in idx.elts] == ["i", "j"]
-            rep.ob("O17.1", "R15", mp, ok, n.target, "entry [species row, reaction column]", node=n)
-    ok = norm(origin(mdefs, ast.Name(id="i", ctx=ast.Load()))) == "species_index[s_node]" and norm(origin(mdefs, ast.Name(id="j", ctx=ast.Load()))) == "reaction_index[r_node]"
-    rep.ob("O17.1", "R15", mp, ok, "i = species_index[s_node]; j = reaction_index[r_node]", "rows are indexed by the species end, columns by the reaction end")
-    cf = origin(mdefs, ast.Name(id="coeff", ctx=ast.Load()))
-    ok = isinstance(cf, ast.Call) and "data.get('stoich', 1" in norm(cf)
-    rep.ob("O17.1", "R15", mp, ok, cf, "the coefficient is the arc's 'stoich' (default 1)")
+        rep.ob("O17.1", "R15", bs, None, alpha(s[0].stmt, bs.node), str(exc))
+    lp = [l for l in walk_local(mp.node) if isinstance(l, ast.For)]
+    Gv = None
+    u = v = data = None
+    if lp:
+        m = pmatch("$g.edges(data=True)", lp[0].iter)
+        if m and isinstance(lp[0].target, ast.Tuple) and len(lp[0].target.elts) == 3:
+            Gv = m["g"]
+            u, v, data = [norm(e) for e in lp[0].target.elts]
+    ok = Gv is not None and norm(origin(mdefs, ast.Name(id=Gv, ctx=ast.Load()))) == f"_as_bipartite({mp.params[0]})"
+    rep.ob("O17.1", "R15", mp, ok, lp[0].iter if lp else "for", "every arc of the view contributes")
+    ends = set()
+    for role, want_name in (("reactant", "S_minus"), ("product", "S_plus")):
+        got = fills.get(role, [])
+        rep.ob("O17.1", "R13", mp, len(got) == 1, f"{want_name} accumulation", f"{want_name} is filled from arcs with role '{role}'", {"sites": len(got)}, node=got[0][1] if got else mp.node)
+        for nm, n in got:
+            tg = n.target if isinstance(n, ast.AugAssign) else n.targets[0]
+            csrc = origin(mdefs, n.value) if isinstance(n, ast.AugAssign) else None
+            okc = isinstance(n, ast.AugAssign) and isinstance(n.op, ast.Add) and data is not None and isinstance(csrc, ast.Call) and f"{data}.get('stoich', 1" in norm(csrc)
+            rep.ob("O17.1", "R15", mp, okc, alpha(n, mp.node), "coefficients are accumulated (parallel arcs add up); the coefficient is the arc's 'stoich' (default 1)", node=n)
+            idx = tg.slice
+            oki = False
+            if isinstance(idx, ast.Tuple) and len(idx.elts) == 2:
+                i_src, j_src = origin(mdefs, idx.elts[0]), origin(mdefs, idx.elts[1])
+                mi, mj = pmatch("$si[$s]", i_src), pmatch("$ri[$r]", j_src)
+                if mi and mj:
+                    order = {x.index: nm_ for nm_, xs in mdefs.items() for x in xs if x.index is not None and isinstance(x.value, ast.Call) and call_name(x.value) == "_species_and_reaction_order"}
+                    oki = order.get((2,)) == mi["si"] and order.get((3,)) == mj["ri"]
+                    ends.add((mi["s"], mj["r"]))
+            rep.ob("O17.1", "R15", mp, oki, alpha(tg, mp.node), "entry [species row, reaction column]: rows are indexed by the species end, columns by the reaction end", node=n)
     # species/reaction end classification
-    sel = [n for n in walk_local(mp.node) if isinstance(n, ast.Assign) and isinstance(n.targets[0], ast.Tuple) and [norm(e) for e in n.targets[0].elts] == ["s_node", "r_node"]]
-    ok = len(sel) == 2
+    sel = [n for n in walk_local(mp.node) if isinstance(n, ast.Assign) and isinstance(n.targets[0], ast.Tuple) and len(n.targets[0].elts) == 2
+           and isinstance(n.value, ast.Tuple) and {norm(e) for e in n.value.elts} == {u, v}]
+    ok = len(sel) == 2 and len({norm(n.targets[0]) for n in sel}) == 1
+    if ok:
+        # the names used as row / column index are (species end, reaction end) in this order
+        se, re_ = [norm(e) for e in sel[0].targets[0].elts]
+        ok = ends == {(se, re_)}
     if ok:
         for n in sel:
             gs = guards_of(pm, n, mp.node)
-            vals = [norm(e) for e in n.value.elts]
-            t = norm(gs[0][0]) if gs else ""
-            first = vals[0]
-            ok = ok and (f"{first}_data.get('kind') == 'species'" in t)
-    rep.ob("O17.1", "R15", mp, ok, [norm(n) for n in sel], "the end tagged 'species' becomes the row, the end tagged 'reaction' the column")
-    lp = [l for l in walk_local(mp.node) if isinstance(l, ast.For)]
-    ok = bool(lp) and norm(lp[0].iter).replace(" ", "") == "G.edges(data=True)"
-    rep.ob("O17.1", "R15", mp, ok, lp[0].iter if lp else "for", "every arc of the view contributes")
-    shapes = [norm(d.value) for nm in ("S_minus", "S_plus") for d in mdefs.get(nm, []) if d.kind == "assign"]
-    rep.ob("O17.1", "R15", mp, all("np.zeros((n_species, n_reactions)" in s_ for s_ in shapes) and len(shapes) == 2, shapes, "matrices have one row per species and one column per reaction")
+            first = norm(n.value.elts[0])
+            t = gs[0][0] if gs else None
+            # the first member of the pair is the end whose node data says kind == 'species'
+            kinds = [c for c in ast.walk(t) if isinstance(c, ast.Compare) and is_const(c.comparators[0], "species")] if t is not None else []
+            okk = False
+            for c in kinds:
+                m = pmatch("$d.get('kind')", c.left)
+                if m and pmatch(f"{Gv}.nodes[{first}]", origin(local_defs(lp[0]), ast.Name(id=m["d"], ctx=ast.Load()))) is not None:
+                    okk = True
+            ok = ok and okk
+    rep.ob("O17.1", "R15", mp, ok, "s_node, r_node = <species end>, <reaction end>", "the end tagged 'species' becomes the row, the end tagged 'reaction' the column")
+    nsp = {x.index: nm_ for nm_, xs in mdefs.items() for x in xs if x.index is not None and isinstance(x.value, ast.Call) and call_name(x.value) == "_species_and_reaction_order"}
+    shapes_ok = True
+    for role, lst in fills.items():
+        for nm, n in lst:
+            src = origin(mdefs, ast.Name(id=nm, ctx=ast.Load()))
+            m = pmatch("np.zeros(($a, $b), dtype=float)", src) or pmatch("np.zeros(($a, $b))", src)
+            shapes_ok = shapes_ok and m is not None and norm(origin(mdefs, ast.Name(id=m["a"], ctx=ast.Load()))) == f"len({nsp.get((0,))})" \
+                and norm(origin(mdefs, ast.Name(id=m["b"], ctx=ast.Load()))) == f"len({nsp.get((1,))})"
+    rep.ob("O17.1", "R15", mp, shapes_ok and len(fills) == 2, "np.zeros((n_species, n_reactions))", "matrices have one row per species and one column per reaction")
     # sibling: the network's own incidence matrix uses the same sign convention
     inc = rep.f(HG, "CRNHyperGraph.incidence_matrix")
     signs = {}
@@ -134,32 +180,49 @@ def matrices(rep):
     rep.ob("O17.1", "R13", inc, signs == {"reactants": {-1}, "products": {1}}, str(signs), "incidence_matrix agrees: reactants negative, products positive")
     sm = rep.f(ST, "stoichiometric_matrix")
     d = local_defs(sm.node)
-    up = unpack_of(d, "S")
+    srets = returns_of(sm.node)
+    up = unpack_of(d, norm(srets[-1].value)) if srets and isinstance(srets[-1].value, ast.Name) else None
     rep.ob("O17.1", "SHAPE", sm, up is not None and up[1] == (2,) and call_name(up[0]) == "build_S", "_, _, S = build_S(crn)", "stoichiometric_matrix is the S of build_S")
 
 
 def kernels(rep):
-    for q, want, what in (("left_nullspace", "S.T", "left kernel = null space of S transposed (m^T S = 0)"),
-                          ("right_nullspace", "S", "right kernel = null space of S (S v = 0)")):
+    for q, transposed, what in (("left_nullspace", True, "left kernel = null space of S transposed (m^T S = 0)"),
+                                ("right_nullspace", False, "right kernel = null space of S (S v = 0)")):
         fi = rep.f(ST, q)
         rets = returns_of(fi.node)
-        ok = len(rets) == 1 and isinstance(rets[0].value, ast.Call) and call_name(rets[0].value) == "_null_space" and norm(rets[0].value.args[0]) == want
-        rep.ob("O17.1", "SHAPE", fi, ok, rets[0] if rets else "return", what)
         d = local_defs(fi.node)
-        rep.ob("O17.1", "SHAPE", fi, norm(origin(d, ast.Name(id="S", ctx=ast.Load()))) == "stoichiometric_matrix(crn)", "S = stoichiometric_matrix(crn)", "the kernel is taken of the network's stoichiometric matrix")
+        ok = ok2 = False
+        if len(rets) == 1 and isinstance(rets[0].value, ast.Call) and call_name(rets[0].value) == "_null_space" and rets[0].value.args:
+            a0 = rets[0].value.args[0]
+            m = pmatch("$s.T", a0) if transposed else (pmatch("$s", a0) if isinstance(a0, ast.Name) else None)
+            ok = m is not None
+            if m:
+                ok2 = norm(origin(d, ast.Name(id=m["s"], ctx=ast.Load()))) == f"stoichiometric_matrix({fi.params[0]})"
+        rep.ob("O17.1", "SHAPE", fi, ok, "_null_space(S.T)" if transposed else "_null_space(S)", what)
+        rep.ob("O17.1", "SHAPE", fi, ok2, "S = stoichiometric_matrix(crn)", "the kernel is taken of the network's stoichiometric matrix")
     rk = rep.f(ST, "stoichiometric_rank")
     rets = returns_of(rk.node)
-    ok = len(rets) == 1 and "np.linalg.matrix_rank(S" in norm(rets[0].value)
-    rep.ob("O17.1", "SHAPE", rk, ok, rets[0] if rets else "return", "rank = matrix_rank(S)")
+    ok = False
+    if len(rets) == 1:
+        mr = [c for c in ast.walk(rets[0].value) if isinstance(c, ast.Call) and call_name(c) == "matrix_rank"]
+        ok = bool(mr) and norm(origin(local_defs(rk.node), mr[0].args[0])) == f"stoichiometric_matrix({rk.params[0]})"
+    rep.ob("O17.1", "SHAPE", rk, ok, "np.linalg.matrix_rank(S)", "rank = matrix_rank(S)")
     sv = rep.f(ST, "_svd_null_space")
     d = local_defs(sv.node)
-    ns = origin(d, ast.Name(id="ns", ctx=ast.Load()))
-    rkv = origin(d, ast.Name(id="rank", ctx=ast.Load()))
-    ok = norm(ns) == "vh[rank:].T" and "(s > tol).sum()" in norm(rkv)
-    rep.ob("O17.1", "SHAPE", sv, ok, f"rank={norm(rkv)}; ns={norm(ns)}", "SVD fallback: kernel = right singular vectors beyond the numerical rank")
+    rets = [r for r in returns_of(sv.node) if isinstance(r.value, ast.Name)]
+    ok = False
+    if rets:
+        ns = origin(d, rets[-1].value)
+        m = pmatch("$vh[$rank:].T", ns)
+        if m:
+            rkv = origin(d, ast.Name(id=m["rank"], ctx=ast.Load()))
+            m2 = pmatch("int(($s > $tol).sum())", rkv)
+            svd = {x.index: nm_ for nm_, xs in d.items() for x in xs if x.index is not None and isinstance(x.value, ast.Call) and call_name(x.value) == "svd"}
+            ok = m2 is not None and svd.get((2,)) == m["vh"] and svd.get((1,)) == m2["s"]
+    rep.ob("O17.1", "SHAPE", sv, ok, "ns = vh[rank:].T with rank = #(s > tol)", "SVD fallback: kernel = right singular vectors beyond the numerical rank")
     icl = rep.f(ST, "integer_conservation_laws")
-    d = local_defs(icl.node)
-    rep.ob("O17.1", "SHAPE", icl, "left_nullspace(crn" in norm(origin(d, ast.Name(id="B", ctx=ast.Load()))), "B = left_nullspace(...)", "integer laws are scaled left-kernel vectors")
+    lk = [c for c in walk_local(icl.node) if isinstance(c, ast.Call) and call_name(c) in ("left_nullspace", "right_nullspace")]
+    rep.ob("O17.1", "SHAPE", icl, len(lk) == 1 and call_name(lk[0]) == "left_nullspace" and norm(lk[0].args[0]) == icl.params[0], "B = left_nullspace(...)", "integer laws are scaled left-kernel vectors")
 
 
 # ------------------------------------------------------------------ R10
@@ -172,7 +235,7 @@ def _sign_of_cost(defs, c):
         return "pos", src
     if isinstance(src, ast.UnaryOp) and isinstance(src.op, ast.USub) and isinstance(src.operand, ast.Call) and call_name(src.operand) == "ones":
         return "neg", src
-    if isinstance(src, ast.Call) and call_name(src) in ("sum",) or "B.sum(" in t or ".sum(axis=0)" in t or "@" in t:
+    if isinstance(src, ast.Call) and call_name(src) in ("sum",) or ".sum(axis=0)" in t or "@" in t:
         return "combination", src
     return "unknown", src
 
@@ -239,7 +302,8 @@ def lp_sites(rep):
                     ok = True if (neg_same and rhs_neg) else None
             else:
                 ok = None
-            construct = f"linprog: c={norm(csrc)}, bounds={norm(bsrc) if bsrc is not None else 'default (0, None)'}"
+            both = alpha(ast.Tuple(elts=[csrc] + ([bsrc] if bsrc is not None else []), ctx=ast.Load()), fi.node)
+            construct = f"linprog: (c, bounds) = {both}" if bsrc is not None else f"linprog: c = {both}, bounds default (0, None)"
             rep.ob("O17.2", "R10", fi, ok, construct,
                    "the LP is used as a yes/no oracle, so its objective must be bounded below on every feasible set: with free variables and a "
                    "non-zero cost 'unbounded' is reported as 'no solution' (e.g. C + B >> F + A is called non-conservative)",
@@ -256,7 +320,7 @@ def lp_sites(rep):
     for fi2, c2 in users:
         ok2 = fi2.qual in ("is_conservative", "compute_conservativity")
         arg = norm(c2.args[0]) if c2.args else "?"
-        rep.ob("O17.2", "R10", fi2, ok2, f"{fi2.qual}: {norm(c2)[:70]}",
+        rep.ob("O17.2", "R10", fi2, ok2, f"{fi2.qual}: {alpha(c2, fi2.node)[:70]}",
                "the coefficient-space LP is only an oracle for positive *conservation laws*; any other decision routed through it inherits its boundedness defect "
                "(unbounded read as 'no solution')", node=c2)
     rep.need("R10", n, 1, "linprog call sites in stoich.py")
@@ -274,6 +338,7 @@ def lp_sites(rep):
 
 def witnesses(rep):
     fi = rep.f(ST, "_positive_conservation_law_from_basis")
+    Bp = fi.params[0]
     cfg = CFG(fi.node)
     pm = parent_map(fi.node)
     defs = local_defs(fi.node)
@@ -281,21 +346,36 @@ def witnesses(rep):
     rep.need("DOM", len(pos), 3, "positive returns of _positive_conservation_law_from_basis")
     for r in pos:
         flag = r.value.elts[1]
+        wm = pmatch("$m / np.sum($m)", r.value.elts[0])
+        if wm is None:
+            rep.ob("O17.3", "DOM", fi, None, alpha(r, fi.node), "returned witness is not of the form m / sum(m)", node=r)
+            continue
+        M = wm["m"]
         if is_const(flag, True):
             # LP path: must be dominated by the re-check `if not np.all(m > eps): return None, True`
-            checks = [n for n in cfg.stmts() if isinstance(n, ast.If) and norm(n.test).replace(" ", "") in ("notnp.all(m>eps)", "not(np.all(m>eps))")
+            checks = [n for n in cfg.stmts() if isinstance(n, ast.If) and norm(n.test).replace(" ", "") in (f"notnp.all({M}>eps)", f"not(np.all({M}>eps))")
                       and isinstance(n.body[-1], ast.Return)]
             ok = bool(checks) and cfg.all_paths_pass(ENTRY, r, checks, {checks[0]: False})
-            rep.ob("O17.3", "DOM", fi, ok, r, "an LP witness is returned only after it was re-checked to be strictly positive", node=r)
-            m = [d for d in defs.get("m", []) if d.kind == "assign" and norm(d.value) == "B @ a"]
-            rep.ob("O17.3", "DOM", fi, bool(m), "m = B @ a", "the LP witness is a combination of left-kernel vectors (so it annihilates S)")
+            rep.ob("O17.3", "DOM", fi, ok, "return m / np.sum(m), True", "an LP witness is returned only after it was re-checked to be strictly positive", node=r)
+            msrc = [d for d in defs.get(M, []) if d.kind == "assign" and pmatch(f"{Bp} @ $a", d.value) is not None]
+            oka = False
+            if msrc:
+                a_ = pmatch(f"{Bp} @ $a", msrc[0].value)["a"]
+                oka = "res.x" in norm(origin(defs, ast.Name(id=a_, ctx=ast.Load()))) or any(
+                    isinstance(x, ast.Attribute) and x.attr == "x" for x in ast.walk(origin(defs, ast.Name(id=a_, ctx=ast.Load()))))
+            rep.ob("O17.3", "DOM", fi, oka, "m = B @ a", "the LP witness is a combination of left-kernel vectors (so it annihilates S)")
         else:
-            gs = [norm(t).replace(" ", "") for t, s in guards_of(pm, r, fi.node) if s]
-            ok = any("np.all(col>eps)ornp.all(col<-eps)" in g for g in gs)
-            rep.ob("O17.3", "DOM", fi, ok, f"return under {gs}", "a basis vector is accepted only if all its entries are strictly positive (or all strictly negative, then negated)", node=r)
-            msrc = [d for d in defs.get("m", []) if d.kind == "assign" and isinstance(d.value, ast.IfExp)]
-            ok2 = all(norm(d.value).replace(" ", "") == "colifnp.all(col>0)else-col" for d in msrc) and len(msrc) >= 2
-            rep.ob("O17.3", "DOM", fi, ok2, [norm(d.value) for d in msrc], "a negative basis vector is negated before it is returned")
+            gs = [t for t, s in guards_of(pm, r, fi.node) if s]
+            col = None
+            for t in gs:
+                m = pmatch("np.all($c > eps) or np.all($c < -eps)", t)
+                if m:
+                    col = m["c"]
+            rep.ob("O17.3", "DOM", fi, col is not None, "return under np.all(col > eps) or np.all(col < -eps)" if col else f"return under {[norm(t) for t in gs]}",
+                   "a basis vector is accepted only if all its entries are strictly positive (or all strictly negative, then negated)", node=r)
+            msrc = [d for d in defs.get(M, []) if d.kind == "assign" and isinstance(d.value, ast.IfExp)]
+            ok2 = col is not None and all(pmatch(f"{col} if np.all({col} > 0) else -{col}", d.value) is not None for d in msrc) and len(msrc) >= 2
+            rep.ob("O17.3", "DOM", fi, ok2, "m = col if np.all(col > 0) else -col", "a negative basis vector is negated before it is returned")
     # lp_attempted flag: True only after linprog was actually called
     for r in returns_of(fi.node):
         if isinstance(r.value, ast.Tuple) and is_const(r.value.elts[1], True):
@@ -304,38 +384,62 @@ def witnesses(rep):
             trys = [n for n in cfg.stmts() if isinstance(n, ast.Try) and any(x is l for l in lpcalls for x in ast.walk(n))]
             through = lpcalls + trys
             ok = bool(through) and cfg.all_paths_pass(ENTRY, r, through)
-            rep.ob("O17.3", "DOM", fi, ok, r, "lp_attempted=True is reported only on paths that went through the LP", node=r)
+            rep.ob("O17.3", "DOM", fi, ok, alpha(r, fi.node), "lp_attempted=True is reported only on paths that went through the LP", node=r)
     ic = rep.f(ST, "is_conservative")
     pm = parent_map(ic.node)
+    idefs = local_defs(ic.node)
+    up = {x.index: nm for nm, xs in idefs.items() for x in xs if x.index is not None and isinstance(x.value, ast.Call) and call_name(x.value) == "_positive_conservation_law_from_basis"}
+    WIT, ATT = up.get((0,)), up.get((1,))
+    Bv = [nm for nm, xs in idefs.items() for x in xs if x.kind == "assign" and isinstance(x.value, ast.Call) and call_name(x.value) == "left_nullspace"]
+    Bv = Bv[0] if Bv else "?"
     for r in [x for x in returns_of(ic.node) if is_const(x.value, False)]:
         gs = [norm(t) for t, s in guards_of(pm, r, ic.node) if s]
-        ok = any(g in ("lp_attempted", "B is None or B.size == 0") for g in gs)
-        rep.ob("O17.3", "DOM", ic, ok, f"return False under {gs}", "a definitive 'not conservative' comes only from a trivial kernel or an attempted LP", node=r)
-    ok = any(norm(r.value).replace(" ", "") == "misnotNone" for r in returns_of(ic.node))
+        ok = any(g in (ATT, f"{Bv} is None or {Bv}.size == 0") for g in gs)
+        rep.ob("O17.3", "DOM", ic, ok, f"return False under {len(gs)} guard(s)", "a definitive 'not conservative' comes only from a trivial kernel or an attempted LP", {"guards": gs}, node=r)
+    ok = WIT is not None and any(pmatch(f"{WIT} is not None", r.value) is not None for r in returns_of(ic.node))
     rep.ob("O17.3", "DOM", ic, ok, "return m is not None", "with a one-dimensional kernel the sign pattern of the basis vector decides")
     # is_consistent
     cs = rep.f(ST, "is_consistent")
     pm = parent_map(cs.node)
     d = local_defs(cs.node)
+    aeq = [c for c in walk_local(cs.node) if isinstance(c, ast.Call) and call_name(c) == "linprog"]
+    RES = [nm for nm, xs in d.items() for x in xs if aeq and x.value is aeq[0]]
+    RES = RES[0] if RES else "?"
+    Sv = [nm for nm, xs in d.items() for x in xs if x.kind == "assign" and norm(x.value) == f"stoichiometric_matrix({cs.params[0]})"]
+    Sv = Sv[0] if Sv else "?"
     trues = [r for r in returns_of(cs.node) if is_const(r.value, True)]
     for r in trues:
-        gs = [norm(t).replace(" ", "") for t, s in guards_of(pm, r, cs.node) if s]
-        if any("res.success" in g for g in gs):
-            ok = any("rel_err<=" in g for g in gs)
-            rep.ob("O17.3", "DOM", cs, ok, f"return True under {gs}", "the LP flux is accepted only after its residual S v was checked", node=r)
-            # sibling discipline (the conservation-law LP re-checks np.all(m > eps)): bounds handed to a floating-point LP solver
-            # hold only up to its feasibility tolerance, so the returned flux itself must be re-checked to be strictly positive
-            okp = any("np.all(v>" in g for g in gs)
-            rep.ob("O17.3", "DOM", cs, okp, f"return True under {gs}",
+        gs = [t for t, s in guards_of(pm, r, cs.node) if s]
+        flat = [cj for t in gs for cj in conjunct_nodes(t)]
+        if any(norm(cj) == f"{RES}.success" for cj in flat):
+            errs = [pmatch("$e <= $$tol", cj) for cj in flat]
+            errs = [m for m in errs if m]
+            okr = False
+            V = None
+            if errs:
+                # rel_err = norm(residual) / max_v ; residual = S @ v ; v = res.x
+                esrc = origin(d, ast.Name(id=errs[0]["e"], ctx=ast.Load()))
+                names = [x.id for x in ast.walk(esrc) if isinstance(x, ast.Name)]
+                for nm in names:
+                    m2 = pmatch(f"{Sv} @ $v", origin(d, ast.Name(id=nm, ctx=ast.Load())))
+                    if m2:
+                        # the flux is the solver's point, bound inside the same success branch as this return
+                        rg = [(norm(t_), s_) for t_, s_ in guards_of(pm, r, cs.node)]
+                        for x in d.get(m2["v"], []):
+                            if x.kind == "assign" and norm(x.value) == f"{RES}.x":
+                                xg = [(norm(t_), s_) for t_, s_ in guards_of(pm, x.stmt, cs.node)]
+                                if all(g in rg for g in xg):
+                                    okr, V = True, m2["v"]
+            rep.ob("O17.3", "DOM", cs, okr, "return True under rel_err <= tol", "the LP flux is accepted only after its residual S v was checked (residual of the returned flux)", node=r)
+            okp = V is not None and any(pmatch(f"np.all({V} > $$e)", cj) is not None for cj in flat)
+            rep.ob("O17.3", "DOM", cs, okp, "return True under np.all(v > eps)" if okp else f"return True under {[norm(c_) for c_ in flat]}",
                    "the LP flux is accepted as a witness only after it was re-checked to be strictly positive (solver bounds hold only up to tolerance: "
                    "`A >> B, A >> B` is reported consistent from the point (-1e-8, 1e-8))", node=r)
-    res = origin(d, ast.Name(id="residual", ctx=ast.Load()))
-    rep.ob("O17.3", "DOM", cs, norm(res) == "S @ v", res, "the residual is S v for the returned flux")
-    aeq = [c for c in walk_local(cs.node) if isinstance(c, ast.Call) and call_name(c) == "linprog"]
     if aeq:
         c = aeq[0]
-        ok = norm(origin(d, kwarg(c, "A_eq"))) in ("S", "stoichiometric_matrix(crn)") and "np.zeros(n_species)" in norm(origin(d, kwarg(c, "b_eq")))
-        rep.ob("O17.3", "SHAPE", cs, ok, c, "the LP encodes S v = 0", node=c)
+        shp = {x.index: nm for nm, xs in d.items() for x in xs if x.index is not None and norm(x.value) == f"{Sv}.shape"}
+        ok = norm(origin(d, kwarg(c, "A_eq"))) in (Sv, f"stoichiometric_matrix({cs.params[0]})") and norm(origin(d, kwarg(c, "b_eq"))) == f"np.zeros({shp.get((0,))})"
+        rep.ob("O17.3", "SHAPE", cs, ok, "linprog(c, A_eq=S, b_eq=0, ...)", "the LP encodes S v = 0", node=c)
         lo, hi, bsrc = _bounds(d, kwarg(c, "bounds"))
         elt = None
         if isinstance(bsrc, ast.ListComp):
@@ -349,7 +453,7 @@ def witnesses(rep):
                 okb = const(lo_) is not None and const(lo_) > 0
             except (ValueError, TypeError):
                 okb = True if norm(lo_) == "eps" else None
-        rep.ob("O17.3", "SHAPE", cs, okb, bsrc if bsrc is not None else c, "every flux component has a strictly positive lower bound (strict positivity)", node=c)
+        rep.ob("O17.3", "SHAPE", cs, okb, alpha(bsrc, cs.node) if bsrc is not None else "bounds", "every flux component has a strictly positive lower bound (strict positivity)", node=c)
 
 
 def ordering(rep):
@@ -362,7 +466,11 @@ def ordering(rep):
         i, node = [norm(e) for e in lp.target.elts]
         writes = {norm(t): norm(v) for t, v, st in assigned_subscripts(lp)}
         apps = [c for c in walk_local(lp) if isinstance(c, ast.Call) and call_name(c) == "append"]
-        ok = any(k.endswith(f"_index[{node}]") and v == i for k, v in writes.items()) and len(apps) == 1
+        rets_ = returns_of(fi.node)
+        ret_names = [norm(e) for e in rets_[-1].value.elts] if rets_ and isinstance(rets_[-1].value, ast.Tuple) else []
+        # one of the returned index maps gets map[node] = i, one of the returned label lists gets the label appended
+        ok = any(k == f"{mname}[{node}]" and v == i for k, v in writes.items() for mname in ret_names[2:]) and len(apps) == 1 \
+            and norm(apps[0].func.value) in ret_names[:2]
         rep.ob("O17.1", "SHAPE", fi, ok, lp.iter, "labels and index maps are filled in the same pass (row/column k is label k)", node=lp)
     rep.need("SHAPE", n, 2, "enumerate loops in _species_and_reaction_order")
 
